@@ -426,3 +426,43 @@ def plain_eq_replay(inputs, clause):
 
 
 plain_eq.replay = plain_eq_replay
+
+
+# ------------------------------------------------------------------------------ MoleculeIterator.__iter__: every pass starts with empty
+# buffers (molecules left over from an abandoned earlier pass must not absorb the fragments a second time)
+def iter_prologue_block(f):
+    return blocks.stmts_between(
+        f, lambda st: isinstance(st, ast.If) and ast.unparse(st.test) == 'self.perform_qflag',
+        lambda st: isinstance(st, ast.Assign) and ast.unparse(st).startswith('self.waiting_fragments = 0'))
+
+
+def iter_prologue_self(pooling):
+    def mk(eng, name):
+        stale = [Obj('MolRef', {'idx': 1}), Obj('MolRef', {'idx': 2})]
+        attrs = {'perform_qflag': False, 'pooling_method': pooling, 'waiting_fragments': named(INT, 'stale_waiting'),
+                 'yielded_fragments': named(INT, 'stale_yielded'), 'deleted_fragments': named(INT, 'stale_deleted'),
+                 'check_ejection_iter': named(INT, 'stale_counter')}
+        if pooling == 0:
+            attrs['molecules'] = list(stale)
+        else:
+            attrs['molecules_per_cell'] = {'bucket': list(stale)}
+        return Obj('MoleculeIterator', attrs, info=eng.loader.classref(FI, 'MoleculeIterator'))
+    return mk
+
+
+def iter_prologue_unit(pooling):
+    buf = 'len(self.molecules) == 0' if pooling == 0 else 'len(self.molecules_per_cell) == 0'
+    return Contract(
+        PROP, FI + '::MoleculeIterator.__iter__', name='MoleculeIterator.__iter__[a pass starts with empty buffers, pooling_method=%d]' % pooling,
+        block=iter_prologue_block,
+        params={'self': iter_prologue_self(pooling)},
+        setup=lambda eng: None,
+        yields='checks-only',
+        ensures={'no_molecule_of_an_earlier_pass_is_buffered': buf,
+                 'counters_restart': 'self.waiting_fragments == 0 and self.check_ejection_iter == 0'},
+        raises={},
+        assumptions=['the iterator may have been abandoned in the middle of an earlier pass (two molecules left in the buffer)'],
+    )
+
+
+UNITS += [iter_prologue_unit(0), iter_prologue_unit(1)]
